@@ -174,17 +174,34 @@ class Emitter:
         for fq, f in p.funcs.items():
             for n in walk_no_nested(f.node):
                 if isinstance(n, ast.Call) and isinstance(n.func, ast.Attribute) and n.func.attr == "write" and n.args:
-                    names = {x.id for x in ast.walk(n.args[0]) if isinstance(x, ast.Name)}
+                    serialised = set()  # names that occur only as the element handed to etree.tostring(...)
+
+                    def _names(e):
+                        out = set()
+                        ser = {id(x) for c in ast.walk(e) if isinstance(c, ast.Call) and norm(c.func).endswith("etree.tostring") and c.args for x in ast.walk(c.args[0])}
+                        for x in ast.walk(e):
+                            if isinstance(x, ast.Name):
+                                if id(x) in ser:
+                                    serialised.add(x.id)
+                                else:
+                                    out.add(x.id)
+                        return out
+
+                    names = _names(n.args[0])
                     # follow one level of local assignment (result = textwrap.indent(xml_string, indent))
                     for m2 in walk_no_nested(f.node):
                         if isinstance(m2, ast.Assign) and any(isinstance(t, ast.Name) and t.id in names for t in m2.targets):
                             if isinstance(m2.value, ast.Call) and norm(m2.value.func).endswith("indent") and m2.value.args:
-                                names |= {x.id for x in ast.walk(m2.value.args[0]) if isinstance(x, ast.Name)}
+                                names |= _names(m2.value.args[0])
                             else:
-                                names |= {x.id for x in ast.walk(m2.value) if isinstance(x, ast.Name)}
+                                names |= _names(m2.value)
                     for pn in f.params:
                         if pn in names and pn not in ("file", "indent") and f.params.index(pn) > 0:
                             sw[fq] = pn
+                    # an element writer that serialises and writes by itself: its parameter reaches the file through etree.tostring only
+                    for pn in f.params:
+                        if pn in serialised and pn not in names and fq not in sw:
+                            ew[fq] = pn
         for fq, f in p.funcs.items():
             for n in walk_no_nested(f.node):
                 if isinstance(n, ast.Call) and norm(n.func).endswith("etree.tostring") and n.args and isinstance(n.args[0], ast.Name) and n.args[0].id in f.params:
